@@ -59,6 +59,14 @@ func c11(x *mon.Ctx) {
 			alt := world.Reissue(w.PKI.Root, nil, func(t *x509Cert) {
 				t.SerialNumber = world.NextSerial()
 				t.NotBefore, t.NotAfter = t.NotBefore.Add(-time.Duration(1+i%5)*24*time.Hour), t.NotAfter.Add(-time.Duration(1+i%7)*24*time.Hour)
+				switch i % 3 {
+				case 1: // the other issue derives its subject key identifier another way (SHA-256 instead of SHA-1, truncated, …): key
+					// identifiers are hints for finding an issuer, the intermediate's authority key identifier still names the first issue
+					t.SubjectKeyId = make([]byte, []int{20, 32, 8}[i%9/3])
+					r.Read(t.SubjectKeyId)
+				case 2:
+					t.SubjectKeyId = nil // (the template default: derived from the key, as in the first issue)
+				}
 			})
 			w.Q.Chain = world.ChainPEM(i%2 == 0, w.PKI.Leaf, w.PKI.Inter, alt)
 			for _, l := range levels {
